@@ -72,6 +72,9 @@ def uf_signature(ev, clause):
     if clause in ('value', 'dtype', 'exact-value', 'out-not-written'):
         sig['dtype'] = dtype_class(ev['dt'])
     sig['layout'] = {'C': 'C', 'F': 'F', 'S': 'strided'}[ev.get('layout', 'C')]
+    sig['dtkw'] = c['dtkw']
+    if c['outkind'] != 'none':
+        sig['outdt'] = c.get('outdt', 'same')
     if ev.get('special'):
         sig['data'] = 'special:' + ev['special'][0]
     return sig
@@ -163,9 +166,10 @@ def compare_export(ev, exp):
     if ev['exact'] and ev.get('canonical') and ev['name'] in exp['vals'] and ev['vals'][0] != exp['vals'][ev['name']]:
         bad.append('exact-value')
     # result dtype of the exact ufuncs as exported by the specification (all outputs of these have one dtype)
+    # (with out= it is the dtype of out; computed by UfuncSem from the dtype keyword and the out dtype modes)
     if ev['name'] in exp.get('dtypes', {}) and ev['case']['method'] != 'at':
         want = exp['dtypes'][ev['name']][ev['dt']]
-        if ev['case']['outkind'] == 'none' and any(d != want for d in ev['rdtype']):
+        if want != 'n/a' and any(d != want for d in ev['rdtype']):
             bad.append('dtype')
     return sorted(set(bad))
 
@@ -188,7 +192,10 @@ def run(ctx):
         'power spaces: for shape-changing methods (partial reduce, outer, reduceat) the statement does not fix a product '
         'space of the result shape; any carrier (element or ndarray) of the right numbers is accepted, an exception is not',
         'only "same kind, matching shape and dtype" is demanded of the result space (weightings are not compared)',
-        'keyword options exercised: axis, keepdims, dtype, out (where= is not part of the statement)',
+        'keyword options exercised: axis, keepdims, dtype, out (where= is not part of the statement); the dtype keyword '
+        '(absent / same / narrower / wider) is crossed with the out kind (none, element, element of the other array-backed '
+        'kind, ndarray) and the out dtype (same / wider / narrower) for __call__, reduce, accumulate, outer on tensor '
+        'and discretised elements; NumPy refuses some casts (not applicable)',
         'power spaces need >= 2 axes (X^n of tensor spaces); 0-d out objects are exercised (rn(()) exists)',
         'a Python builtin scalar returned for a full reduction carries no dtype (no dtype clause for it)',
         'data alphabet: small integers / dyadics, plus NaN, +inf, -inf, -0.0 at the first / a middle / the last entry '
@@ -253,6 +260,7 @@ def run(ctx):
     seen = {}
     applicable = set()        # (ufunc, dtype, kind, method, outkind) combinations actually executed
     layouts_done = set()      # (kind, method, outkind, layout)
+    cross_done = set()        # (kind, method, outkind, outdt, dtkw) executed (NumPy accepted the combination)
 
     def execute(case, uf, dt, variant, exp=None, exact_inputs=True, cplx=False, layout='C', special=None):
         try:
@@ -266,6 +274,7 @@ def run(ctx):
             info['expected'] = {'shape': exp['shape'], 'kind': exp['kind']}
         applicable.add((uf.__name__, dt, case['kind'], case['method'], case['outkind']))
         layouts_done.add((case['kind'], case['method'], case['outkind'], layout))
+        cross_done.add((case['kind'], case['method'], case['outkind'], case.get('outdt', 'same'), case['dtkw']))
         nontriv = not (case['method'] == 'call' and case['outkind'] == 'none' and case['order'] in ('e', 'ee')
                        and ev['ref_dtype'] == [dt])
         ctx.count([case, uf.__name__, dt, variant, special], nontriv)
@@ -287,8 +296,10 @@ def run(ctx):
         chosen = [ex_pool[(rot + j) % len(ex_pool)] for j in range(min(n_exact, len(ex_pool)))] if ex_pool else []
         chosen += [ot_pool[(rot * 3 + j) % len(ot_pool)] for j in range(min(n_other, len(ot_pool)))] if ot_pool else []
         for ui, uf in enumerate(chosen):
+            narrow = case['dtkw'] == 'narrower' or case.get('outdt') == 'narrower'
+            pool_dt = ['float64', 'int64', 'complex128'] if narrow else U.DTYPES      # dtypes that have a narrower one
             for di in range(n_dt):
-                dt = U.DTYPES[(rot + ui + di * 3) % len(U.DTYPES)]
+                dt = pool_dt[(rot + ui + di * 3) % len(pool_dt)]
                 # every configuration sees the layouts C, F and strided (independent of the seed: ui + di varies)
                 ev = execute(case, uf, dt, (rot + ui + di) % 2, exp, exact_inputs=uf.__name__ in exact_names,
                              layout=U.LAYOUTS[(ci + ui + di) % 3])
@@ -310,7 +321,7 @@ def run(ctx):
         if case['axis'] not in basic_axes:
             continue
         basic.setdefault((case['kind'], case['ucls'], case['method']), []).append(c)
-    per_method = 4 if quick else 10 ** 6
+    per_method = 3 if quick else 10 ** 6
     for uf in ufs:
         ucls = U.ucls_of(uf)
         if ucls is None:
@@ -422,7 +433,7 @@ def run(ctx):
 
     # ---- 5. random driver: concretisation only (ufunc, dtype, variant, complex operands) ----
     rnd = random.Random(ctx.seed * 7919 + 17)
-    nrand = 1500 if quick else 20000
+    nrand = 1000 if quick else 20000
     done = 0
     tries = 0
     while done < nrand and tries < nrand * 5:
@@ -473,6 +484,10 @@ def run(ctx):
         per_uf.setdefault(name, set()).add((dt, kind, method, ok))
     ctx.extra['ufuncs_executed'] = len(per_uf)
     want = {(k, m, o, l) for (k, m, o, l0) in layouts_done for l in U.LAYOUTS}
+    cross_all = {(c['case']['kind'], c['case']['method'], c['case']['outkind'], c['case'].get('outdt', 'same'),
+                  c['case']['dtkw']) for c in cases if c['case']['kind'] != 'power'}
+    ctx.extra['option_cross_cells'] = {'exported': len(cross_all), 'executed': len(cross_all & cross_done),
+                                       'never_applicable_or_refused': sorted(map(list, cross_all - cross_done))[:40]}
     ctx.extra['kind_method_outkind_layout_combinations'] = len(layouts_done)
     ctx.extra['kind_method_outkind_without_some_layout'] = sorted(map(list, want - layouts_done))
     ctx.extra['ufunc_dtype_kind_method_outkind_combinations'] = len(applicable)
